@@ -280,6 +280,24 @@ def run(run_, only_input=None):
             inputs.append(("a: corpus: " + lab, b))
         for p, b in zip(shipped_device_files(), shipped):
             inputs.append(("a: shipped file " + os.path.basename(p), b))
+        # very short files, exhaustively: every file of 0, 1 and 2 bytes (a file caught while it is being written, byte-order marks cut short)
+        inputs.append(("a: empty file", b""))
+        for x in range(256):
+            inputs.append(("a: every 1-byte file", bytes([x])))
+        for x in range(256):
+            for y in range(256):
+                inputs.append(("a: every 2-byte file", bytes([x, y])))
+        # a file re-read while it is still being written: every prefix of a shipped file (with and without byte-order marks) up to 200 bytes,
+        # then every 23rd (quick) / every (thorough) prefix
+        for bi, b in enumerate(shipped[:2] if quick else shipped):
+            for bom in (b"", b"\xef\xbb\xbf", b"\xff\xfe", b"\xfe\xff"):
+                full = bom + b
+                step = 23 if quick else 1
+                cuts = list(range(0, min(200, len(full)))) + list(range(200, len(full), step))
+                if bom and quick:
+                    cuts = cuts[:60]
+                for n in cuts:
+                    inputs.append(("a: prefix of a shipped file" + (" after a byte-order mark" if bom else ""), full[:n]))
         for i in range(n_a):
             k = rng.random()
             if k < 0.45 and shipped:
